@@ -190,6 +190,10 @@ def run_case(case, ctx):
         for f in (lambda: x + y, lambda: x - y, lambda: x * y, lambda: fm.add(x, y), lambda: fm.sub(y, x), lambda: fm.mul(x, y),
                   lambda: np.add(x, y), lambda: np.subtract(x, y), lambda: np.multiply(y, x)):
             _try(f)
+        if rank:
+            # elements obtained by indexing (their value is a NumPy scalar)
+            for f in (lambda: x[1] * y[1], lambda: x[0] + y[1], lambda: x[1] - y[0], lambda: x[-1] * y, lambda: fm.mul(y[0], x[0])):
+                _try(f)
         return
     if case['k'] == 'corner':
         wx, wy, sx, sy = case['wx'], case['wy'], case['sx'], case['sy']
@@ -199,6 +203,8 @@ def run_case(case, ctx):
             x = Fxp(np.array([[lox], [hix], [hix - 1 if hix > lox else hix]], dtype=object), sx, wx, fx, raw=True)
             y = Fxp(np.array([[loy, hiy, loy + 1 if hiy > loy else loy]], dtype=object), sy, wy, fy, raw=True)
             for f in (lambda: x * y, lambda: x + y, lambda: x - y, lambda: y - x, lambda: fm.mul(y, x)):
+                _try(f)
+            for f in (lambda: x[0] * y[0, 0], lambda: x[1] * y[0, 1], lambda: x[1, 0] + y[0, 1], lambda: x[0, 0] - y[0, 1]):
                 _try(f)
             xs = Fxp(lox, sx, wx, fx, raw=True)
             ys = Fxp(loy, sy, wy, fy, raw=True)
